@@ -136,14 +136,23 @@ inductive Mode where
   | loc | lnk | remote
 deriving DecidableEq, Repr
 
-/-- `hosts, path = pool_path.split(":")` and the `if/elif/else` of every dispatcher;
-    returns the path with `;` removed for link mode -/
+/-- `s.split(":")` on characters (structural, so that the kernel can evaluate it) -/
+def splitColon : List Char → List (List Char)
+  | [] => [[]]
+  | c :: cs =>
+    if c = ':' then [] :: splitColon cs
+    else match splitColon cs with
+      | [] => [[c]]
+      | w :: ws => (c :: w) :: ws
+
+/-- `hosts, path = pool_path.split(":")` (anything but exactly two parts is Python's `ValueError` on
+    unpacking) and the `if/elif/else` of every dispatcher; link mode returns `path.replace(";", "")` -/
 def dispatch (spec : String) : Except Err (Mode × Path) :=
-  match spec.splitOn ":" with
+  match splitColon spec.toList with
   | [hosts, path] =>
-    if hosts != "" then .ok (.remote, path)
-    else if path.contains ';' then .ok (.lnk, path.replace ";" "")
-    else .ok (.loc, path)
+    if hosts != [] then .ok (.remote, String.ofList path)
+    else if path.contains ';' then .ok (.lnk, String.ofList (path.filter (· != ';')))
+    else .ok (.loc, String.ofList path)
   | _ => .error .valueError
 
 /-- `TransferOps.download` -/
@@ -273,28 +282,27 @@ def release (s : State) (p : Nat) (path : Path) (c : PC) (e : Event) : State :=
 
 /-- one transition of process `p`; `none` = the action is not enabled -/
 def stepAct (limit : Nat) (jobs : Nat → Job) (s : State) (p : Nat) (a : Act) : Option State :=
-  let j := jobs p
   match a, s.pc p with
   | .start, .idle =>
-    if j.op = .ull ∧ islink s.fs j.cache = true then some { s with pc := setPc s p (.failed .valueError) }
+    if (jobs p).op = .ull ∧ islink s.fs (jobs p).cache = true then some { s with pc := setPc s p (.failed .valueError) }
     else some { s with pc := setPc s p (.trying 0) }
   | .tryLock, .trying k =>
-    if k < j.timeout then
-      match s.owner j.pool with
-      | none => some { s with pc := setPc s p (.inCS 0), owner := setOwner s j.pool (some p),
-                              hist := .acq p j.pool :: s.hist }
+    if k < (jobs p).timeout then
+      match s.owner (jobs p).pool with
+      | none => some { s with pc := setPc s p (.inCS 0), owner := setOwner s (jobs p).pool (some p),
+                              hist := .acq p (jobs p).pool :: s.hist }
       | some _ => some { s with pc := setPc s p (.trying (k + 1)) }
     else some { s with pc := setPc s p (.failed .runtimeError), hist := .timeout p :: s.hist }
   | .step, .inCS i =>
-    if i < csLen j.op then
-      match csStep limit j.op j.cache j.pool i s.fs with
-      | .next fs' i' => some { s with pc := setPc s p (.inCS i'), fs := fs', hist := .fsop p j.pool :: s.hist }
-      | .raise e => some (release s p j.pool (.failed e) (.rel p j.pool))
+    if i < csLen (jobs p).op then
+      match csStep limit (jobs p).op (jobs p).cache (jobs p).pool i s.fs with
+      | .next fs' i' => some { s with pc := setPc s p (.inCS i'), fs := fs', hist := .fsop p (jobs p).pool :: s.hist }
+      | .raise e => some (release s p (jobs p).pool (.failed e) (.rel p (jobs p).pool))
     else none
   | .unlock, .inCS i =>
-    if i ≥ csLen j.op then some (release s p j.pool .done (.rel p j.pool)) else none
-  | .raise, .inCS _ => some (release s p j.pool (.failed .injected) (.rel p j.pool))
-  | .crash, .inCS _ => some (release s p j.pool .dead (.crash p))
+    if i ≥ csLen (jobs p).op then some (release s p (jobs p).pool .done (.rel p (jobs p).pool)) else none
+  | .raise, .inCS _ => some (release s p (jobs p).pool (.failed .injected) (.rel p (jobs p).pool))
+  | .crash, .inCS _ => some (release s p (jobs p).pool .dead (.crash p))
   | .crash, .trying _ => some { s with pc := setPc s p .dead, hist := .crash p :: s.hist }
   | .crash, .idle => some { s with pc := setPc s p .dead, hist := .crash p :: s.hist }
   | _, _ => none
